@@ -30,21 +30,43 @@ def witnesses(M, vab, vcd):
   return g, q1, q2
 
 
-def gen_case(rng, supervised):
+def gen_case(rng, supervised, high_dim=0, small_prior=False):
   d = int(rng.integers(2, 5))
   X, y = gen.dataset(rng, d=d, n_classes=int(rng.integers(2, 4)), bits=5, sep=float(rng.choice([1.0, 2.5])))
+  if high_dim:
+    # MANY features and a well-conditioned prior of small eigenvalues (2^-10 I): its determinant is far below the smallest
+    # double although nothing about the problem is degenerate
+    d = int(high_dim)
+    X = gen.grid(rng.normal(size=(48, d)) + np.repeat(np.eye(2, d), 24, axis=0), bits=3)
+    y = np.repeat([0, 1], 24)
   prior_kind = str(rng.choice(['identity', 'covariance', 'random', 'array']))
   if prior_kind == 'array':
     A = rng.normal(size=(d, d))
     prior = gen.grid(A.T.dot(A) + np.eye(d), bits=5)
   else:
     prior = prior_kind
+  prior_scale = 'unit'
+  if small_prior:
+    # the directed instance of the open finding D29
+    supervised, prior_kind, prior = False, 'array', np.eye(d) * 2.0 ** -18
+    prior_scale = 'small'
+  elif prior_kind == 'array' and not supervised and rng.random() < 0.2:
+    # an SPD array prior of SMALL scale (an exact power of two): LSML's trial steps are absolute (1e-10 .. 1 along the normalised
+    # gradient) and its tol is absolute - see the open finding D29
+    prior = prior * 2.0 ** -18
+    prior_scale = 'small'
+  if high_dim:
+    prior_kind, prior = 'array', np.eye(d) * 2.0 ** -10
   prior_arg = gen.layout(rng, prior) if isinstance(prior, np.ndarray) else prior      # what the estimator gets (any memory layout)
   seed = int(rng.integers(1000))
   mode = str(rng.choice(['run', 'run', 'few', 'prior_feasible']))
   tol = float(rng.choice([1e-3, 1e-5]))
   max_iter = int(rng.integers(1, 4)) if mode == 'few' else 2000
   wkind = str(rng.choice(['none', 'array', 'list']))
+  if high_dim:
+    mode, tol, max_iter, wkind, supervised = 'high_dim', 1e-3, 25, 'none', False
+  if small_prior:
+    mode, tol, max_iter, wkind = 'run', 1e-3, 2000, 'none'
   if supervised:
     n_c = int(rng.integers(6, 14))
     est = gen.LSML_Supervised(tol=tol, max_iter=max_iter, prior=prior_arg, n_constraints=n_c, random_state=seed)
@@ -62,7 +84,7 @@ def gen_case(rng, supervised):
   w = None
   if wkind != 'none':
     w = np.round(rng.random(nq) * 8 + 1) / 4.0
-  ev = {'ev': 'LsmlFit', 'supervised': bool(supervised), 'mode': mode, 'prior_kind': prior_kind, 'wkind': wkind, 'exc': '',
+  ev = {'ev': 'LsmlFit', 'supervised': bool(supervised), 'mode': mode, 'prior_kind': prior_kind, 'wkind': wkind, 'exc': '', 'prior_scale': prior_scale,
         'tol': dy(tol), 'max_iter': max_iter, 'n_iter': 0, 'has_scaled': False, 'L_scaled': []}
   with warnings.catch_warnings():
     warnings.simplefilter('ignore')
@@ -183,12 +205,12 @@ def gen_trace(recipe):
   rng = np.random.default_rng(recipe['seed'])
   if recipe.get('machine'):
     return {'est': 'LSML', 'events': [gen_run_case(rng) for _ in range(recipe['n'])]}
-  return {'est': 'LSML', 'events': [gen_case(rng, recipe['supervised']) for _ in range(recipe['n'])]}
+  return {'est': 'LSML', 'events': [gen_case(rng, recipe['supervised'], recipe.get('high_dim', 0), bool(recipe.get('small_prior'))) for _ in range(recipe['n'])]}
 
 
 def signature_of(recipe, tr, clause, pos):
   e = tr['events'][pos - 1] if 0 < pos <= len(tr['events']) else {}
-  return {'supervised': bool(e.get('supervised')), 'weights': e.get('wkind'), 'mode': e.get('mode')}
+  return {'supervised': bool(e.get('supervised')), 'weights': e.get('wkind'), 'mode': e.get('mode'), 'prior_scale': e.get('prior_scale', 'unit')}
 
 
 def run(ctx):
@@ -197,6 +219,7 @@ def run(ctx):
   rs = []
   for i in range(16 if ctx.quick else 576):
     rs.append(dict(supervised=bool(i % 4 == 3), n=5 if ctx.quick else 10, seed=int(rng.integers(1 << 30))))
+  rs.append(dict(supervised=False, small_prior=True, n=3, seed=int(rng.integers(1 << 30))))          # (open finding D29, directed)
   ctx.rule = ('random quadruplet sets x priors {identity, covariance, random, SPD array} x weights {None, array, list} x tol in '
               '{1e-3, 1e-5} x {run to the stopping rule, 1-3 iterations, all constraints satisfied under any metric}; LSML and '
               'LSML_Supervised; distinct by event content; non-trivial = at least one violated constraint at the result')
